@@ -42,6 +42,7 @@ def run_rules(mod, chk):
         generic.round_once_last(chk)
         generic.loops_iterate(chk)
         generic.params_not_cross_bound(chk)
+        generic.params_not_dropped(chk)
     chk.repo.on_func = None
     return chk
 
